@@ -39,6 +39,14 @@ GSETS = [
                          "import 'b.pg';\nS: 'if' ';' | b.Name ';' | ';';\n"],
                 "b.pg": ["Name: id;\nterminals\nid: /[a-z]+/;\n"]},
          alpha="if;y", extra_probes=["iffy;", "if;", "ify;"]),
+    # custom error hints: g.pge is compiled into g.pgec (keyed by LR state)
+    dict(files={"g.pg": ["import 'b.pg';\nE: E '+' E {left} | b.N;\n",
+                         "import 'b.pg';\nE: E '+' E {left} | '(' E ')' | b.N;\n"],
+                "b.pg": ["N: 'n';\n", "N: 'n' | 'm' | N '!';\n"],
+                "g.pge": ["n +\n:::\noperand expected\n\n=====\nn n\n:::+\n"
+                          "operator expected\n",
+                          "n +\n:::\nOPERAND\n"]},
+         alpha="n+m(", extra_probes=["n+n+", "n+(n", "n!+", "m m"]),
 ]
 OPTS = {
     "LR": ("lr", {}),
@@ -85,7 +93,7 @@ def observe(p, alpha):
             else:
                 out.append(("ok", repr(r)))
         except parglare.SyntaxError as e:
-            out.append(("syn", e.location.start_position))
+            out.append(("syn", e.location.start_position, e.hint))
         except Exception as e:      # noqa: BLE001
             out.append(("exc", type(e).__name__))
     return hashlib.sha256(repr(out).encode()).hexdigest()[:12]
@@ -225,7 +233,9 @@ def events(tier):
     ev = [("build", o) for o in BUILDERS]
     ev += [("build", "pglr"), ("build", "pglrps")]
     ev += [("edit", "g.pg"), ("edit", "b.pg"), ("edit", "c.pg"),
+           ("edit", "g.pge"),
            ("touch", "g.pg"), ("touch", "b.pg"), ("touch", "c.pg"),
+           ("touch", "g.pge"),
            ("touch", "g.pgc"), ("delete",),
            # an incomplete cache file, however it came about (the statement
            # lists it as a possible on-disk state): a strict prefix / empty
@@ -237,9 +247,9 @@ def events(tier):
 
 def plan(tier, seed):
     if tier == "quick":
-        return dict(depth=3, gsets=[0, 1, 2, 3], byte_stride=8, op_stride=4,
+        return dict(depth=3, gsets=[0, 1, 2, 3, 4], byte_stride=8, op_stride=4,
                     rt_space="k3", rt_win=None)
-    return dict(depth=4, gsets=[0, 1, 2, 3], byte_stride=1, op_stride=1,
+    return dict(depth=4, gsets=[0, 1, 2, 3, 4], byte_stride=1, op_stride=1,
                 rt_space="k4", rt_win=None)
 
 
@@ -320,7 +330,7 @@ def apply_event(world, judge, stats, st, writer, ev, hist):
         # incomplete caches, not forged ones.  Touching a current cache is
         # explored.
         return None
-    if ev[0] in ("touch", "edit") and ev[1].endswith(".pg") and (
+    if ev[0] in ("touch", "edit") and ev[1].endswith((".pg", ".pge")) and (
             ev[1] not in world.files or
             (ev[0] == "edit" and len(world.files[ev[1]]) < 2)):
         return None
